@@ -619,6 +619,42 @@ func (ex *Exec) callBuiltin(name string, args []Value, c *ssa.CallCommon, site t
 		}
 	case "close":
 		return nil
+	case "String": // unsafe.String(ptr, len)
+		p := args[0].(Ptr)
+		n := int(ex.argInt(args[1]))
+		if n == 0 {
+			return &StrV{}
+		}
+		if p.obj == nil || len(p.path) == 0 {
+			ex.unsupported("unsafe.String of non-element pointer")
+		}
+		base := Ptr{obj: p.obj, path: p.path[:len(p.path)-1]}
+		off := p.path[len(p.path)-1]
+		bs := make([]*Term, n)
+		for i := range bs {
+			bs[i] = ex.load(extendPath(base, off+i)).(*Term)
+		}
+		return ex.mkStr(bs)
+	case "SliceData":
+		sl := args[0].(SliceV)
+		if sl.arr.obj == nil {
+			return Ptr{}
+		}
+		return extendPath(sl.arr, sl.off)
+	case "StringData":
+		st := args[0].(*StrV)
+		sl := ex.byteSlice(ex.strBytes(st))
+		return extendPath(sl.arr, 0)
+	case "Slice": // unsafe.Slice(ptr, len)
+		p := args[0].(Ptr)
+		n := int(ex.argInt(args[1]))
+		if p.obj == nil {
+			return SliceV{}
+		}
+		if len(p.path) == 0 {
+			ex.unsupported("unsafe.Slice of non-element pointer")
+		}
+		return SliceV{arr: Ptr{obj: p.obj, path: p.path[:len(p.path)-1]}, off: p.path[len(p.path)-1], len: n, cap: n}
 	case "ssa:wrapnilchk":
 		if p, ok := args[0].(Ptr); ok && p.obj == nil {
 			ex.rtPanic("value method called using nil pointer")
